@@ -64,7 +64,7 @@ def InStep (n : Nat) (r : Bytes) (o : Nat) : Prop := o + r.length = n ∨ (r = [
 def KeyScan.Good (ks off n : Nat) : KeyScan → Prop
   | .err _ => True
   | .done e r o => e.keyStart = ks ∧ ks ≤ e.keyEnd ∧ ks ≤ e.valueEnd ∧ e.valueEnd ≤ n ∧ o + r.length = n ∧ off < o ∧
-      (e.valueEnd = e.keyEnd ∨ e.valueEnd = o)
+      e.valueEnd = o
   | .value ke r o => ks ≤ ke ∧ ke < o ∧ off < o ∧ InStep n r o
 
 theorem KeyScan.Good.weaken {ks off n : Nat} {r : KeyScan} (h : r.Good ks (off + 1) n) : r.Good ks off n := by
@@ -143,7 +143,7 @@ def Next.Good (off n : Nat) : Next → Prop
   | .eof => True
   | .err _ => True
   | .entry e r o => e.keyStart = off ∧ off < o ∧ InStep n r o ∧ off ≤ e.keyEnd ∧ off ≤ e.valueEnd ∧ e.valueEnd ≤ n ∧
-      (e.valueEnd = e.keyEnd ∨ e.valueEnd = min o n)
+      e.valueEnd = min o n
 
 theorem next_good (n : Nat) (rest : Bytes) (off : Nat) (h : off + rest.length = n) :
     (next n rest off).Good off n := by
@@ -175,17 +175,17 @@ theorem next_good (n : Nat) (rest : Bytes) (off : Nat) (h : off + rest.length = 
           rw [hfe] at hf
           simp only [FindEnd.Good] at hf
           simp only [Next.Good, InStep]
-          refine ⟨trivial, by omega, Or.inl hf.1, by omega, by omega, by omega, Or.inr (by omega)⟩
+          refine ⟨trivial, by omega, Or.inl hf.1, by omega, by omega, by omega, by omega⟩
         · rename_i o hfe
           rw [hfe] at hf
           simp only [FindEnd.Good] at hf
           simp only [Next.Good, InStep]
-          refine ⟨trivial, by omega, Or.inl (by simp; omega), by omega, by omega, by omega, Or.inr (by omega)⟩
+          refine ⟨trivial, by omega, Or.inl (by simp; omega), by omega, by omega, by omega, by omega⟩
       · subst hk4
         simp [skipWSP] at hsk
         obtain ⟨rfl, rfl⟩ := hsk
         simp only [findEnd, Next.Good, InStep]
-        refine ⟨trivial, by omega, Or.inr ⟨trivial, hk5⟩, by omega, by omega, by omega, Or.inr (by omega)⟩
+        refine ⟨trivial, by omega, Or.inr ⟨trivial, hk5⟩, by omega, by omega, by omega, by omega⟩
 
 
 /-- The entries tile `[start, n)`: each begins where the previous one ended and the last ends at `n`. -/
@@ -208,13 +208,12 @@ theorem next_cons_ne_eof (n : Nat) (c : UInt8) (tl : Bytes) (off : Nat) : next n
   · split <;> simp
 
 theorem entriesLoop_tiling (n : Nat) : ∀ (fuel : Nat) (rest : Bytes) (off : Nat) (es : List Entry),
-    InStep n rest off → entriesLoop n fuel rest off = .ok es →
-    (∀ e ∈ es, e.emptyValued = false) → Tiling n (min off n) es := by
+    InStep n rest off → entriesLoop n fuel rest off = .ok es → Tiling n (min off n) es := by
   intro fuel
   induction fuel with
   | zero => intro rest off es _ h; simp [entriesLoop] at h
   | succ fuel ih =>
-    intro rest off es hin hrun hne
+    intro rest off es hin hrun
     unfold entriesLoop at hrun
     cases rest with
     | nil =>
@@ -239,13 +238,8 @@ theorem entriesLoop_tiling (n : Nat) : ∀ (fuel : Nat) (rest : Bytes) (off : Na
         split at hrun
         · rename_i es' hes'
           cases hrun
-          have hne' : ∀ x ∈ es', x.emptyValued = false := fun x hx => hne x (List.mem_cons_of_mem _ hx)
-          have he : e.emptyValued = false := hne e (List.mem_cons_self ..)
-          have hve : e.valueEnd = min o n := by
-            rcases g7 with g7 | g7
-            · simp [Entry.emptyValued, g7] at he
-            · exact g7
-          have t := ih r o es' g3 hes' hne'
+          have hve : e.valueEnd = min o n := g7
+          have t := ih r o es' g3 hes'
           simp only [List.length_cons] at hlen
           have : min off n = off := by omega
           rw [this]
@@ -269,10 +263,10 @@ theorem tiling_flatMap (h : Bytes) : ∀ (es : List Entry) (start : Nat),
       rw [h1]
       exact slice_drop_append h h2
 
-/-- `NewHeader` never yields an entry of the empty-valued shape ⇒ its entries tile the header. -/
-theorem parseEntries_tiling {h : Bytes} {es : List Entry} (hp : parseEntries h = .ok es)
-    (hne : ∀ e ∈ es, e.emptyValued = false) : Tiling h.length 0 es := by
-  have := entriesLoop_tiling h.length (h.length + 2) h 0 es (Or.inl (by simp)) hp hne
+/-- the entries `NewHeader` yields tile the header (since fix 1ac3d52 also for empty-valued fields) -/
+theorem parseEntries_tiling {h : Bytes} {es : List Entry} (hp : parseEntries h = .ok es) :
+    Tiling h.length 0 es := by
+  have := entriesLoop_tiling h.length (h.length + 2) h 0 es (Or.inl (by simp)) hp
   simpa using this
 
 /-- for an entry with a key that is not white space only, exactly one of `Fields` / `FieldsNot` selects it -/
